@@ -68,15 +68,14 @@
 (declare-fun bitandnot (Int Int) Int)
 (define-unfold pow2 ((n Int)) Int (ite (<= n 0) 1 (* 2 (pow2 (- n 1)))))
 (assert (forall ((n Int)) (! (>= (pow2 n) 1) :pattern ((pow2 n)))))
+;@module bits.ax
+;@attach bits
+; pow2 is strictly increasing on the naturals (induction: lemmas pow2.mono.*)
+(assert (forall ((a Int) (b Int)) (! (=> (and (<= 0 a) (< a b)) (< (pow2 a) (pow2 b))) :pattern ((pow2 a) (pow2 b)))))
 
-;@module floats
-(declare-fun float.exp2 (Float) Float)
-(declare-const float.c._16 Float)
-(declare-const float.c._65536 Float)
-(declare-fun int.of.float.uint32 (Float) Int)
-(assert (= (float.exp2 float.c._16) float.c._65536))
-(assert (= (int.of.float.uint32 float.c._65536) 65536))
-(assert (forall ((f Float)) (! (and (<= 0 (int.of.float.uint32 f)) (< (int.of.float.uint32 f) 4294967296)) :pattern ((int.of.float.uint32 f)))))
+;@module floats bits
+; float64 is not modelled: operations are uninterpreted; the few exact facts the
+; code relies on are axioms (A-FLOAT)
 (declare-fun float.of.int (Int) Float)
 (declare-fun float.add (Float Float) Float)
 (declare-fun float.sub (Float Float) Float)
@@ -85,14 +84,25 @@
 (declare-fun float.neg (Float) Float)
 (declare-fun float.lt (Float Float) Bool)
 (declare-fun float.le (Float Float) Bool)
+(declare-fun float.pow (Float Float) Float)
+(declare-fun float.exp2 (Float) Float)
+(declare-const float.c._2 Float)
+(declare-const float.c._16 Float)
+(declare-const float.c._65536 Float)
 (declare-fun int.of.float.uint64 (Float) Int)
 (declare-fun int.of.float.int64 (Float) Int)
 (declare-fun int.of.float.int (Float) Int)
 (declare-fun int.of.float.uint (Float) Int)
+(declare-fun int.of.float.uint32 (Float) Int)
 (assert (forall ((f Float)) (! (and (<= 0 (int.of.float.uint64 f)) (< (int.of.float.uint64 f) 18446744073709551616)) :pattern ((int.of.float.uint64 f)))))
 (assert (forall ((f Float)) (! (and (<= 0 (int.of.float.uint f)) (< (int.of.float.uint f) 18446744073709551616)) :pattern ((int.of.float.uint f)))))
 (assert (forall ((f Float)) (! (and (<= (- 9223372036854775808) (int.of.float.int64 f)) (< (int.of.float.int64 f) 9223372036854775808)) :pattern ((int.of.float.int64 f)))))
 (assert (forall ((f Float)) (! (and (<= (- 9223372036854775808) (int.of.float.int f)) (< (int.of.float.int f) 9223372036854775808)) :pattern ((int.of.float.int f)))))
+(assert (forall ((f Float)) (! (and (<= 0 (int.of.float.uint32 f)) (< (int.of.float.uint32 f) 4294967296)) :pattern ((int.of.float.uint32 f)))))
+; powers of two up to 2^63 are exact in float64 and convert back exactly
+(assert (forall ((i Int)) (! (=> (and (<= 0 i) (< i 64)) (= (int.of.float.uint64 (float.pow float.c._2 (float.of.int i))) (pow2 i))) :pattern ((float.pow float.c._2 (float.of.int i))))))
+(assert (= (float.exp2 float.c._16) float.c._65536))
+(assert (= (int.of.float.uint32 float.c._65536) 65536))
 
 ;@module sums
 ; Prefix sums of amounts.  Amounts are clamped at 0 (`nn`) so that the sums are
@@ -212,11 +222,15 @@
 ;@ghost db.meltrow (Array Str mint/storage.MeltQuote)
 ;@ghost db.sig (Array Str Bool)
 ;@ghost db.sigrow (Array Str SigRow)
+;@ghost db.ks (Array Str Bool)
+;@ghost db.ksrow (Array Str mint/storage.DBKeyset)
+;@ghost db.seedset Bool
+;@ghost db.seed Bytes
 ;@ghost db.issuedtotal Int
 ;@ghost db.redeemedtotal Int
 ;@ghost db.faults Int
 ;@monotone db.faults
-;@grows db.spent db.sig db.mq db.melt
+;@grows db.spent db.sig db.mq db.melt db.ks
 (declare-datatypes ((SigRow 0)) (((mk.SigRow (SigRow.Amount Int) (SigRow.C_ Str) (SigRow.Id Str) (SigRow.E Str) (SigRow.S Str)))))
 (define-fun rowOf ((p cashu.Proof)) mint/storage.DBProof (mk.mint/storage.DBProof (cashu.Proof.Amount p) (cashu.Proof.Id p) (cashu.Proof.Secret p) (Yof (cashu.Proof.Secret p)) (cashu.Proof.C p) (cashu.Proof.Witness p) str.empty))
 (define-fun pendRowOf ((p cashu.Proof) (q Str)) mint/storage.DBProof (mk.mint/storage.DBProof (cashu.Proof.Amount p) (cashu.Proof.Id p) (cashu.Proof.Secret p) (Yof (cashu.Proof.Secret p)) (cashu.Proof.C p) (cashu.Proof.Witness p) q))
@@ -265,11 +279,14 @@
 ;@attach mapsum
 (assert (forall ((k (Array Int Str)) (v (Array Str Int)) (n Int)) (! (>= (esum.str k v n) 0) :pattern ((esum.str k v n)))))
 
-;@module hd
+;@module hd group
 ; BIP32: extended keys are immutable objects; derivation is a pure function of
 ; (parent, index) (assumption A-LIB2).
 (declare-fun hd.master (Bytes) Ref)
 (declare-fun hd.derive (Ref Int) Ref)
+(declare-fun hd.privsc (Ref) Sc)
+(declare-fun be64 (Bytes) Int)
+(assert (forall ((b Bytes)) (! (and (<= 0 (be64 b)) (< (be64 b) 18446744073709551616)) :pattern ((be64 b)))))
 
 ;@module clock
 ;@ghost clk.now Int
@@ -306,3 +323,10 @@
 (declare-fun tags.ok (Ref) Bool)
 (declare-fun tags.parse (Ref) cashu/nuts/nut11.P2PKTags)
 (declare-fun tags.err (Ref) Iface)
+
+;@module hashiface
+(declare-fun hh.size (Iface) Int)
+
+;@module keysets group hd
+; NUT-02 keyset id as a function of the amount -> public key map (contents)
+(declare-fun ksid ((Array Int Bool) (Array Int Ref) (Array Ref github.com/decred/dcrd/dcrec/secp256k1/v4.PublicKey)) Str)
